@@ -75,7 +75,7 @@ def Den (t : Ty) (v : Val) : Prop :=
   | .str => ∃ s, v = .str s
   | .bin => ∃ bs, v = .binary bs
   | .int r => ∃ i, v = .int i ∧ InRng r i
-  | .float lo hi => ∃ f, v = .float f ∧ lo ≤ f ∧ f ≤ hi
+  | .float lo hi => ∃ f, v = .float f ∧ Fl.effLo lo ≤ f ∧ f ≤ Fl.effHi hi
   | .bool none => ∃ b, v = .bool b
   | .bool (some b) => v = .bool b
   | .tspan r => ∃ n, v = .tspan n ∧ InRng r n
